@@ -3,13 +3,6 @@ import TrackVerif.LT.XmlLemmas
 namespace TrackVerif.LT.Xml
 open TrackVerif.LT.Text
 
-/-- an XML name as the schema uses them: ASCII letter or '_' first, then letters, digits, '_',
-    '.', '-'; no ':' -/
-def xmlNameOk (n : String) : Bool :=
-  match n.toList with
-  | [] => false
-  | c :: cs => (c.isAlpha || c = '_') && (c :: cs).all (fun x => (x.isAlphanum || x = '_' || x = '.' || x = '-') && x.toNat < 128)
-
 theorem nameChar_of (x : Char) (h : (x.isAlphanum || x = '_' || x = '.' || x = '-') = true) : isNameChar x = true := by
   simp only [isNameChar, Bool.or_eq_true, decide_eq_true_eq] at h ⊢
   rcases h with ((h | h) | h) | h
@@ -64,8 +57,6 @@ theorem readName_ok (n : String) (hn : xmlNameOk n = true) (d : Char) (r : List 
 
 /-! ### attribute values that need no escaping (integers) -/
 
-def plainVal (v : List Char) : Bool := v.all fun c => c.isDigit || c = '-'
-
 theorem plain_char (c : Char) (h : (c.isDigit || c = '-') = true) :
     ltEscapeChar c = [c] ∧ inCharRange c = true ∧ c ≠ '"' ∧ c ≠ '<' ∧ c ≠ '&' ∧ c ≠ '\r' ∧ c ≠ ']' := by
   simp only [Bool.or_eq_true, decide_eq_true_eq] at h
@@ -104,8 +95,6 @@ theorem goEscape_plain (v : List Char) (h : plainVal v = true) : v.flatMap ltEsc
     simp only [plainVal, List.all_cons, Bool.and_eq_true] at h
     have := (plain_char c h.1).1
     simp [List.flatMap_cons, this, ih (by simpa [plainVal] using h.2)]
-
-def attrOk (a : String × List Char) : Bool := xmlNameOk a.1 && plainVal a.2
 
 theorem skipSpace_nonspace (c : Char) (r : List Char) (h : isSpace c = false) : skipSpace (c :: r) = c :: r := by
   simp [skipSpace, h]
@@ -218,42 +207,53 @@ theorem lexBody_stop (f : Nat) (n : String) (hn : xmlNameOk n = true) (r : List 
   have hname := readName_ok n hn '>' r (by decide) (by decide)
   simp [lexBody, hname, skipSpace, isSpace]
 
+theorem renderAttrs_length (as : List (String × List Char)) : as.length ≤ (as.flatMap renderAttrLT).length := by
+  induction as with
+  | nil => simp
+  | cons a as ih =>
+    simp only [List.flatMap_cons, List.length_append, List.length_cons, renderAttrLT]
+    omega
+
+theorem nameStart_not_qb (n : String) (hn : xmlNameOk n = true) :
+    ∃ c cs, n.toList = c :: cs ∧ c ≠ '?' ∧ c ≠ '!' ∧ c ≠ '/' := by
+  unfold xmlNameOk at hn
+  cases hl : n.toList with
+  | nil => simp [hl] at hn
+  | cons c cs =>
+    simp only [hl, Bool.and_eq_true, Bool.or_eq_true, decide_eq_true_eq] at hn
+    refine ⟨c, cs, rfl, ?_, ?_, ?_⟩ <;>
+      (rcases hn.1 with h | h
+       · intro e; subst e; revert h; decide
+       · subst h; decide)
+
 theorem lexBody_start (f : Nat) (n : String) (hn : xmlNameOk n = true) (as : List (String × List Char))
     (has : as.all attrOk = true) (hx : (as.map (·.1)).any (fun a => a.startsWith "xmlns") = false) (r : List Char) :
     lexBody (f + 1) ('<' :: (n.toList ++ (as.flatMap renderAttrLT ++ '>' :: r))) = .start n as :: lexBody f r := by
-  obtain ⟨c, cs, hl, _, hsl, _⟩ := nameStart_not_space n hn
+  obtain ⟨c, cs, hl, hq1, hq2, hsl⟩ := nameStart_not_qb n hn
   -- the character after the name: a blank (attributes follow) or '>'
   have hnext : ∃ d rest, as.flatMap renderAttrLT ++ '>' :: r = d :: rest ∧ isNameChar d = false ∧ d.toNat < 128 := by
     cases as with
     | nil => exact ⟨'>', r, rfl, by decide, by decide⟩
-    | cons a as' => exact ⟨' ', _, by simp [renderAttrLT], by decide, by decide⟩
+    | cons a as' =>
+      refine ⟨' ', a.1.toList ++ ['=', '"'] ++ a.2.flatMap ltEscapeChar ++ ['"'] ++ (as'.flatMap renderAttrLT ++ '>' :: r), ?_,
+        by decide, by decide⟩
+      simp [renderAttrLT]
   obtain ⟨d, rest, hd, hdn, hda⟩ := hnext
   have hname := readName_ok n hn d rest hdn hda
   rw [← hd] at hname
-  have hq : c ≠ '?' ∧ c ≠ '!' := by
-    unfold xmlNameOk at hn
-    simp only [hl, Bool.and_eq_true, Bool.or_eq_true, decide_eq_true_eq] at hn
-    constructor <;> (rcases hn.1 with h | h
-      · intro e; subst e; revert h; decide
-      · subst h; decide)
   have hattrs := readAttrs_rendered as has r ((as.flatMap renderAttrLT ++ '>' :: r).length + 1) (by
-    have : as.length ≤ (as.flatMap renderAttrLT).length := by
-      induction as with
-      | nil => simp
-      | cons a as ih =>
-        simp only [List.all_cons, Bool.and_eq_true] at has
-        have := ih has.2 (by simpa using hx) |>.elim
-        all_goals simp [renderAttrLT] <;> omega
-    simp; omega)
+    have := renderAttrs_length as
+    simp only [List.length_append, List.length_cons]
+    omega)
   rw [hl] at hname ⊢
   simp only [List.cons_append] at hname ⊢
-  unfold lexBody
+  conv => lhs; unfold lexBody
   simp only [if_true]
   split
   · rename_i heq; simp at heq; exact absurd heq.1 hsl
-  · rename_i heq; simp at heq; exact absurd heq.1 hq.1
-  · rename_i heq; simp at heq; exact absurd heq.1 hq.2
-  · rename_i heq; simp at heq; exact absurd heq.1 hq.2
+  · rename_i heq; simp at heq; exact absurd heq.1 hq1
+  · rename_i heq; simp at heq; exact absurd heq.1 hq2
+  · rename_i heq; simp at heq; exact absurd heq.1 hq2
   · simp only [hname, hattrs, hx, if_false, Bool.false_eq_true]
 
 end TrackVerif.LT.Xml
